@@ -57,7 +57,7 @@ func seqCase(c *run.Case, w *run.Worker, r *gen.Rng) {
 		uploadTarget, other = sink, source
 	}
 	site := kind + "BlobAccess"
-	objs := genUniverse(r, c, r.Range(2, 6))
+	objs := genUniverse(r, c, r.Range(2, 6), true)
 	for _, o := range objs {
 		if r.Chance(1, 2) {
 			source.inner.Set(o.d, o.data)
@@ -73,6 +73,7 @@ func seqCase(c *run.Case, w *run.Worker, r *gen.Rng) {
 	w.Count("scen_seq_"+kind, 1)
 	w.Count("scen_seq_stack_"+st.kinds(), 1)
 	var history []string
+	nontrivial := false // a read fell through to the slow/secondary backend, a call failed, or a FindMissing mixed placements
 	q := st.queued()
 	// Objects the harness removed from the sink in mid-history (an eviction by
 	// a third party; the property quantifies over placements, not over
@@ -81,9 +82,9 @@ func seqCase(c *run.Case, w *run.Worker, r *gen.Rng) {
 	// from the sink fails with INTERNAL "Blob absent from sink after
 	// replication": the documented price of that cache, not a transparency
 	// defect. Accepted only in exactly that constellation.
-	deletedFromSink := map[int]bool{}
+	deletedFromSink := map[string]bool{} // by sink key
 	staleQueuedCache := func(o *object, err error, at time.Time) bool {
-		if q != nil && deletedFromSink[o.idx] && status.Code(err) == codes.Internal &&
+		if q != nil && deletedFromSink[sink.key(o.d)] && status.Code(err) == codes.Internal &&
 			strings.Contains(err.Error(), "Blob absent from sink after replication") && recentBaseSuccessFn(q, sink.key(o.d), at) {
 			w.Count("seq_reads_failed_by_stale_queued_cache", 1)
 			return true
@@ -128,6 +129,7 @@ func seqCase(c *run.Case, w *run.Worker, r *gen.Rng) {
 			history = append(history, h)
 			c.Logf("op %d: %s", op, h)
 			checkRead(c, w, site, "Get", o, o.data, data, err, preSink, preSource, disturbed)
+			nontrivial = nontrivial || !preSink || err != nil
 			if err == nil && !preSink {
 				w.Count("seq_read_throughs", 1)
 				if st.copying() {
@@ -148,6 +150,7 @@ func seqCase(c *run.Case, w *run.Worker, r *gen.Rng) {
 			history = append(history, h)
 			c.Logf("op %d: %s", op, h)
 			checkRead(c, w, site, "GetFromComposite", o, o.childData, data, err, preSink, preSource, disturbed)
+			nontrivial = nontrivial || !preSink || err != nil
 			if err == nil && !preSink {
 				w.Count("seq_read_throughs", 1)
 				if st.copying() {
@@ -231,6 +234,7 @@ func seqCase(c *run.Case, w *run.Worker, r *gen.Rng) {
 			w.Count("seq_findmissing", 1)
 			if onlySecondary > 0 && len(want) > 0 {
 				w.Count("seq_findmissing_mixed", 1)
+				nontrivial = true
 			}
 			if err != nil {
 				if !disturbed {
@@ -257,7 +261,7 @@ func seqCase(c *run.Case, w *run.Worker, r *gen.Rng) {
 			if gs.inner.Has(o.d) {
 				gs.inner.Delete(o.d)
 				if gs == sink {
-					deletedFromSink[o.idx] = true
+					deletedFromSink[sink.key(o.d)] = true
 				}
 				history = append(history, fmt.Sprintf("delete %d from %s", o.idx, name))
 			} else {
@@ -279,7 +283,10 @@ func seqCase(c *run.Case, w *run.Worker, r *gen.Rng) {
 		}
 		cancel()
 	}
-	w.Distinct(fmt.Sprintf("seq|%s|%v|%s", kind, st, strings.Join(history, ";")))
+	if nontrivial {
+		w.Count("nontrivial_seq", 1)
+		w.Distinct(fmt.Sprintf("seq|%s|%v|%s", kind, st, strings.Join(history, ";")))
+	}
 	if firstOf("seq") {
 		w.Sample(map[string]any{"kind": "sequential " + kind, "stack": st.String(), "history": history})
 	}
@@ -396,7 +403,7 @@ func ecacheCase(c *run.Case, w *run.Worker, r *gen.Rng) {
 	cache := digest.NewExistenceCache(clk, kf, size, dur, set)
 	backend := newGStore(e, "backend", kf, false)
 	ba := blobstore.NewExistenceCachingBlobAccess(backend, cache)
-	objs := genUniverse(r, c, r.Range(2, 7))
+	objs := genUniverse(r, c, r.Range(2, 7), true)
 	for _, o := range objs {
 		if r.Chance(2, 3) {
 			backend.inner.Set(o.d, o.data)
@@ -412,6 +419,7 @@ func ecacheCase(c *run.Case, w *run.Worker, r *gen.Rng) {
 	}
 	steps := boundarySteps(dur)
 	var history []string
+	hits := 0
 	// Raw mode: the latest virtual time at which each key was added.
 	lastAdd := map[string]time.Time{}
 	ctx := withCaller(context.Background(), 0)
@@ -437,6 +445,7 @@ func ecacheCase(c *run.Case, w *run.Worker, r *gen.Rng) {
 						continue
 					}
 					hidden = append(hidden, i)
+					hits++
 					w.Count("ecache_hits", 1)
 					t, ok := lastAdd[objs[i].d.GetKey(kf)]
 					if ok && now.Sub(t) == dur {
@@ -490,6 +499,7 @@ func ecacheCase(c *run.Case, w *run.Worker, r *gen.Rng) {
 						}
 					}
 					if !forwarded[key] {
+						hits++
 						w.Count("ecache_hits", 1)
 						if have && now.Sub(last) == dur {
 							w.Count("ecache_hits_at_exact_duration", 1)
@@ -535,7 +545,10 @@ func ecacheCase(c *run.Case, w *run.Worker, r *gen.Rng) {
 		}
 		c.Logf("op %d: %s", op, history[len(history)-1])
 	}
-	w.Distinct(fmt.Sprintf("ecache|%s|%d|%v|%v|%s", setName, size, dur, raw, strings.Join(history, ";")))
+	if hits > 0 {
+		w.Count("nontrivial_ecache", 1)
+		w.Distinct(fmt.Sprintf("ecache|%s|%d|%v|%v|%s", setName, size, dur, raw, strings.Join(history, ";")))
+	}
 	if firstOf("ecache") {
 		w.Sample(map[string]any{"kind": "existence cache (sequential)", "set": setName, "size": size, "duration": dur.String(), "raw": raw, "history": history})
 	}
